@@ -53,6 +53,10 @@ def run(c):
         "with explicit (possibly empty) pools",
         "the MX host name reaches PrepareConn and CheckConn as the same string (attemptMX: record.Host both times); its spellings: MX record "
         "target (fully qualified, zone's case) and implicit MX (recipient domain as typed) — obtained in op attempt from the real lookupMX",
+        "one AD bit per answer: for disc / conn / cconn / attempt the op line ships the A answer and the AAAA answer of the scripted world "
+        "(`x/<a>/<aaaa>`, read from the script, not from CheckCNAMEAD) and the model's checkAddr combines them; the oracle of the monitor is "
+        "RFC 7672 section 2.2 as the code documents it: the host is secure iff the address RRset that is consulted — A when the host has A "
+        "records, else AAAA — came with AD (a signed alias alone also counts); the AD bit of the other address answer is not evidence about it",
         "resolver ops: the miekg/dns client and wire format are primitives (Transport parameter of the model; the tree's is plain UDP without "
         "TCP fall-back); which configured address is a loopback address is known by construction (127.0.0.1, 127.0.0.2: yes; 0.0.0.0: no)",
     ]
@@ -83,6 +87,11 @@ def run(c):
         "process: DANE-TA records matching no presented CA certificate (stale pin, pin of an absent CA, pin matching only the non-CA leaf) x "
         "chains valid / not valid under the system store (verify, with and without VerifiedChains; attempt with a client configuration "
         "without RootCAs). Ordered pairs of record forms where the second record carries the first form's association data. "
+        "Address answers with one AD bit each (18 host states: A only / AAAA only / dual stack; signed A + AAAA without AD as a DNS64 resolver "
+        "synthesises it, the reverse, both, neither; the AAAA or the A lookup failing; empty answers with the other bit), alone and behind a "
+        "signed / unsigned alias x TLSA RRsets signed / unsigned / absent / failing: every shape in disc and conn, pinned RRsets x plaintext / "
+        "non-matching / matching connection under every state in check, conn and attempt, the shapes also behind the loopback / non-loopback "
+        "resolvers of res / rconn. "
         "Each op runs the real function and the Lean model (primitive results shipped as tables); distinct = distinct op lines",
         explanation="theorems for all record lists, chains, handshake histories and primitive behaviours; model tied to dane.go/security.go/"
         "connect.go/dnssec.go by differential runs; "
